@@ -85,6 +85,7 @@ type vxC14Forget struct {
 	At     int  `json:"at"`   // before the node's At-th EXECUTE/BATCH (0-based)
 	Stmt   int  `json:"stmt"` // -1: every id
 	Late   bool `json:"late"` // all UNPREPARED answers for an id but the first wait for the next PREPARE answer of that key
+	Other  bool `json:"other,omitempty"` // the UNPREPARED answers name another id than the one sent (nothing can be prepared again: the execution fails with that error)
 	LateUS int  `json:"late_us"`
 }
 
@@ -256,7 +257,7 @@ func (c *vxC14Case) sane() bool {
 			}
 		}
 		for _, p := range n.Prepare {
-			if _, ok := vxC14ErrCodes[p]; !ok && p != "ok" && p != "close" {
+			if _, ok := vxC14ErrCodes[p]; !ok && p != "ok" && p != "close" && p != "wrongkind" {
 				return false
 			}
 		}
@@ -276,6 +277,7 @@ type vxC14ID struct {
 	late      bool
 	lateUS    int
 	unprep    int // UNPREPARED answers given for this id
+	other     bool
 }
 
 type vxC14Prep struct {
@@ -396,7 +398,12 @@ func (w *vxC14World) onPrepare(ni int, rc *vnode.ReqCtx) {
 	if outcome == "close" {
 		outcome = "ok"
 	}
-	if outcome != "ok" {
+	if outcome == "wrongkind" {
+		// a well-formed frame that is no answer to PREPARE (a set-keyspace result): a failed PREPARE like the refusals
+		ev.fail = true
+		ev.marker = fmt.Sprintf("vxc14_wrongkind_n%d_p%d", ni, nth)
+		resp = &cqlspec.Response{Kind: "SET_KEYSPACE", Keyspace: ev.marker}
+	} else if outcome != "ok" {
 		ev.fail = true
 		ev.marker = fmt.Sprintf("vxC14-refused-n%d-p%d;", ni, nth)
 		resp = &cqlspec.Response{Kind: "ERROR", Code: vxC14ErrCodes[outcome], Message: ev.marker}
@@ -467,7 +474,8 @@ func (w *vxC14World) applyForgets(ni int) {
 		}
 		for _, id := range w.ids {
 			if id.node == ni && !id.forgotten && (f.Stmt < 0 || f.Stmt == id.stmt) {
-				id.forgotten, id.late, id.lateUS = true, f.Late, f.LateUS
+				id.forgotten, id.late, id.lateUS = true, f.Late && !f.Other, f.LateUS
+				id.other = id.other || f.Other
 			}
 		}
 	}
@@ -524,10 +532,20 @@ func (w *vxC14World) checkEntry(ni int, ks, idHex string, vals []cqlspec.ReqValu
 	return id, op, true
 }
 
+func vxC14UnprepAnswer(id *vxC14ID) string {
+	if id.other {
+		return "unprepared-other"
+	}
+	return "unprepared"
+}
+
 // unprepared answers rc with UNPREPARED for id - at once, or (late mode, not the first answer for this
 // id) when the next PREPARE of the same key has been answered, at the latest after vxC14LateFlush.
 func (w *vxC14World) unprepared(ni int, rc *vnode.ReqCtx, id *vxC14ID) func() {
 	resp := &cqlspec.Response{Kind: "ERROR", Code: cqlspec.ErrUnprepared, Message: "vxC14 unprepared", UnpreparedIDHex: id.hex}
+	if id.other {
+		resp.UnpreparedIDHex = "ffee" + id.hex
+	}
 	first := id.unprep == 0
 	id.unprep++
 	if !id.late || first {
@@ -569,7 +587,7 @@ func (w *vxC14World) onExecute(ni int, rc *vnode.ReqCtx) {
 		return
 	}
 	if id.forgotten {
-		w.execs[op] = append(w.execs[op], vxC14Exec{node: ni, ks: ks, answer: "unprepared"})
+		w.execs[op] = append(w.execs[op], vxC14Exec{node: ni, ks: ks, answer: vxC14UnprepAnswer(id)})
 		f := w.unprepared(ni, rc, id)
 		w.mu.Unlock()
 		f()
@@ -639,7 +657,7 @@ func (w *vxC14World) onBatch(ni int, rc *vnode.ReqCtx) {
 		}
 	}
 	if lost != nil {
-		w.execs[op] = append(w.execs[op], vxC14Exec{node: ni, ks: ks, answer: "unprepared"})
+		w.execs[op] = append(w.execs[op], vxC14Exec{node: ni, ks: ks, answer: vxC14UnprepAnswer(lost)})
 		f := w.unprepared(ni, rc, lost)
 		w.mu.Unlock()
 		f()
@@ -1100,6 +1118,12 @@ func vxC14Run(c *vxC14Case, k *vstats.Case) error {
 	if anyFail {
 		k.Class("prepare-failed")
 	}
+	for _, p := range w.preps {
+		if strings.HasPrefix(p.marker, "vxc14_wrongkind") {
+			k.Class("prepare answered with a frame of another kind")
+			break
+		}
+	}
 	if anyUnprep {
 		k.Class("unprepared-answered")
 	}
@@ -1211,6 +1235,14 @@ func vxC14Run(c *vxC14Case, k *vstats.Case) error {
 				k.Class("outcome=no-connection-after-an-earlier-drop")
 				continue
 			}
+		}
+		if n := len(ex); n > 0 && ex[n-1].answer == "unprepared-other" && !c.wrong(ref.op) {
+			// the node said it does not know an id that was never sent: nothing to prepare again
+			if res.err == "" || !strings.Contains(res.err, "vxC14 unprepared") {
+				return fmt.Errorf("%s was answered UNPREPARED naming an id it did not send; the caller got %q, want that error", what, res.err)
+			}
+			k.Class("outcome=unprepared-names-another-id")
+			continue
 		}
 		if res.err != "" {
 			if !explained {
@@ -1364,13 +1396,13 @@ func vxC14Draw(t *rapid.T) *vxC14Case {
 		}
 		c.Rounds = append(c.Rounds, rd)
 	}
-	outcome := rapid.SampledFrom([]string{"ok", "ok", "ok", "ok", "invalid", "syntax", "unauthorized", "server", "overloaded", "config", "close"})
+	outcome := rapid.SampledFrom([]string{"ok", "ok", "ok", "ok", "invalid", "syntax", "unauthorized", "server", "overloaded", "config", "close", "wrongkind"})
 	for h := 0; h < c.Hosts; h++ {
 		sc := vxC14Script{Prepare: rapid.SliceOfN(outcome, 0, 6).Draw(t, "prepare")}
 		nf := rapid.IntRange(0, 3).Draw(t, "forgets")
 		for i := 0; i < nf; i++ {
 			sc.Forget = append(sc.Forget, vxC14Forget{At: rapid.IntRange(0, 24).Draw(t, "at"), Stmt: rapid.IntRange(-1, ns-1).Draw(t, "fstmt"),
-				Late: rapid.Bool().Draw(t, "late"), LateUS: rapid.SampledFrom([]int{0, 50, 300}).Draw(t, "late_us")})
+				Late: rapid.Bool().Draw(t, "late"), LateUS: rapid.SampledFrom([]int{0, 50, 300}).Draw(t, "late_us"), Other: rapid.IntRange(0, 7).Draw(t, "other_id") == 0})
 		}
 		c.Nodes = append(c.Nodes, sc)
 	}
